@@ -740,6 +740,12 @@ class cmap_format_2(CmapSubtable):
 
         # fix GI's and iDelta of last subheader that we we added to the subheader array.
         self.setIDDelta(subHeader)
+        # If that last subheader is subheader 0 (the cmap has one-byte char codes
+        # only, so the first byte never changed in the loop above), its char codes
+        # still have to be keyed to subheader 0.
+        if lastFirstByte == 0:
+            for index in range(subHeader.entryCount):
+                subHeaderKeys[subHeader.firstCode + index] = 0
 
         # Now we add a final subheader for the subHeaderKeys which maps to empty two byte charcode ranges.
         subHeader = SubHeader()
